@@ -838,7 +838,7 @@ fn main() {
     for _ in 0..(if th { 20000 } else { 1500 }) { run_trans(s, r); }
 
     // planted complexes: (cases, maxdim, lvl, ops multiplier)
-    let k = if th { 250 } else { 20 };
+    let k = if th { 150 } else { 20 };
     ring_stream::<i64>(s, r, 60 * k, if th { 7 } else { 5 }, 2, 1);
     ring_stream::<i128>(s, r, 40 * k, if th { 9 } else { 6 }, 2, 2);
     ring_stream::<BigInt>(s, r, 50 * k, if th { 16 } else { 8 }, 3, 2);
